@@ -434,6 +434,10 @@ func (l *List) Inspect() string {
 // Remove eliminates the value form the element in the pos index
 // the element replaces with a nil value.
 func (l *List) Remove(pos int64) Object {
+	if pos < 0 {
+		return newError("list index out of range: %d", pos)
+	}
+
 	if int64(len(l.Value)) > pos {
 		l.Value[pos] = nil
 		l.dirty = true
